@@ -159,6 +159,12 @@ def _order():
     return order
 
 
+# groups of which coq/e2e needs only some files: the make targets to build instead of the whole group.  coq/pyglue: the model
+# and lemma files that E2EPyCore.v imports -- NOT C17.v / GenPySig.v (regenerated from lightmotif-py by C17's translator; its tie
+# theorems break, by design, when a signature of lightmotif-py changes: that must stay C17's report, never C01's or C09's)
+MAKE_TARGETS = {"pyglue": "PyGlueProofs.vo PyGlueHistory.vo PyGlueLazyProofs.vo"}
+
+
 def _make(group, timeout):
     d = C.coq_dir(group)
     with C.Lock("coq-" + group):
@@ -166,7 +172,7 @@ def _make(group, timeout):
         proj = os.path.join(d, "_CoqProject")
         if not os.path.exists(mk) or os.path.getmtime(mk) < os.path.getmtime(proj):
             C.sh("coq_makefile -f _CoqProject -o Makefile", cwd=d, check=True)
-        return C.sh("make -j%d TIMED=0 2>&1" % JOBS, cwd=d, timeout=timeout)
+        return C.sh("make -j%d TIMED=0 %s 2>&1" % (JOBS, MAKE_TARGETS.get(group, "")), cwd=d, timeout=timeout)
 
 
 def build(timeout=2400):
